@@ -252,6 +252,9 @@ def unit_body(U):
                 shared = [g for g in ys if g.attributes is u or getattr(g.attributes, "_d", None) is u]
                 U.prove(base + ".update_attributes_frame#p%d" % p.index, "update_attributes is left as it was given and is not itself the attribute mapping of a yielded feature", [],
                         z3.BoolVal(bool(same_u and not shared)), vars_, replay=_replay_update_frame)
+    # side condition of the fold rule: the loop carries no state besides the locals whose roles were established above
+    from pyvc.harness import require_loop_state
+    require_loop_state(I.FeatureDB.interfeatures, {0: tuple([roles["inter"]] + list(roles["last"]) + list(roles["counters"]))}, "the fold rule (C15.inter.step)")
 
 
 def unit_introns(U):
